@@ -1003,7 +1003,13 @@ fn run_c12(variant: usize) -> CaseOut {
                 let one = json!({"query": UP_QUERY, "variables": {"a": null, "b": [null], "o": {"f": null}}});
                 let ops = if chance(1, 3) { json!([one.clone(), one.clone()]) } else { one };
                 let mut parts = vec![
-                    Part { name: "operations".into(), filename: None, content_type: None, data: serde_json::to_vec(&ops).unwrap() },
+                    Part { name: "operations".into(), filename: None, content_type: match draw(6) {
+                        0 => Some("multipart/form-data".into()),
+                        1 => Some("multipart/mixed; boundary=x".into()),
+                        2 => Some("text/plain; charset=utf-16".into()),
+                        3 => Some("application/json".into()),
+                        _ => None,
+                    }, data: serde_json::to_vec(&ops).unwrap() },
                     Part { name: "map".into(), filename: None, content_type: None, data: match draw(6) {
                         0 => b"{\"0\": [\"variables.a\"]}".to_vec(),
                         1 => b"{\"0\": \"variables.a\"}".to_vec(),
@@ -1012,7 +1018,15 @@ fn run_c12(variant: usize) -> CaseOut {
                         5 => b"{\"0\": [\"0.variables.a\", \".variables.a\", \"abc.variables.a\", \"0.\", \"0\", \"1.variables.b.0\", \"99999999999999999999.variables.a\", \"-1.variables.a\"], \"\": [\"variables.a\"]}".to_vec(),
                         _ => b"[1,2]".to_vec(),
                     } },
-                    Part { name: if chance(1, 8) { String::new() } else { "0".into() }, filename: match draw(6) { 0 => None, 1 => Some(String::new()), _ => Some("a.txt".into()) }, content_type: if chance(1, 2) { Some("text/plain".into()) } else { Some("not a mime".into()) }, data: vec![b'x'; draw(100) as usize] },
+                    Part { name: if chance(1, 8) { String::new() } else { "0".into() }, filename: match draw(9) {
+                        0 => None,
+                        1 => Some(String::new()),
+                        // very long names, ASCII and multi-byte, of lengths around typical limits
+                        2 => Some("n".repeat(200 + draw(200) as usize)),
+                        3 => Some("\u{e9}".repeat(100 + draw(60) as usize)),
+                        4 => Some(format!("{}{}", "x".repeat(draw(4) as usize), "\u{597d}".repeat(80 + draw(20) as usize))),
+                        _ => Some("a.txt".into()),
+                    }, content_type: if chance(1, 2) { Some("text/plain".into()) } else { Some("not a mime".into()) }, data: vec![b'x'; draw(100) as usize] },
                 ];
                 if chance(1, 3) {
                     parts.swap(0, 2);
